@@ -85,6 +85,7 @@ func drainIter(w *h.Worker, nxt trie.NextRaw, limit int) (out []kv, msg string) 
 	for i := 0; ; i++ {
 		k, v := nxt()
 		w.Trans++
+		w.Tick()
 		if k == nil {
 			break
 		}
@@ -96,6 +97,7 @@ func drainIter(w *h.Worker, nxt trie.NextRaw, limit int) (out []kv, msg string) 
 	for j := 0; j < 3; j++ {
 		k, v := nxt()
 		w.Trans++
+		w.Tick()
 		if k != nil || v != nil {
 			return out, fmt.Sprintf("next() after exhaustion returned (%x,%x)", k, v)
 		}
@@ -208,6 +210,7 @@ func oracleC04(w *h.Worker, b *h.Built, inst string, st *trie.SlimTrie, u *input
 					return &h.Viol{Sig: "scan-panic", Msg: fmt.Sprintf("ScanFrom(%s,%v,%v) panicked: %v", briefQ(s), incl, withValue, p)}
 				}
 				w.Trans++
+				w.Tick()
 				if msg := sameKVs(got, want); msg != "" {
 					return &h.Viol{Sig: "scanfrom-wrong", Msg: fmt.Sprintf("ScanFrom(%s,incl=%v,withValue=%v): %s", briefQ(s), incl, withValue, msg)}
 				}
@@ -237,6 +240,7 @@ func oracleC04(w *h.Worker, b *h.Built, inst string, st *trie.SlimTrie, u *input
 				return &h.Viol{Sig: "scan-panic", Msg: fmt.Sprintf("ScanFrom(%s) with callback stop panicked: %v", briefQ(s), p)}
 			}
 			w.Trans++
+			w.Tick()
 			full := scanRef(b, s, true, nil, false, true)
 			wantCalls := j + 1
 			if wantCalls > len(full) {
@@ -278,6 +282,7 @@ func oracleC04(w *h.Worker, b *h.Built, inst string, st *trie.SlimTrie, u *input
 						return &h.Viol{Sig: "scan-panic", Msg: fmt.Sprintf("ScanFromTo(%s,%v,%s,%v) panicked: %v", briefQ(s), is, briefQ(e), ie, p)}
 					}
 					w.Trans++
+					w.Tick()
 					if msg := sameKVs(got, want); msg != "" {
 						return &h.Viol{Sig: "scanfromto-wrong", Msg: fmt.Sprintf("ScanFromTo(%s,incl=%v,%s,incl=%v,withValue=%v): %s", briefQ(s), is, briefQ(e), ie, wv, msg)}
 					}
@@ -345,6 +350,7 @@ func interleaveIters(w *h.Worker, b *h.Built, st *trie.SlimTrie, a, bb string, w
 						}
 					}
 					w.Trans++
+					w.Tick()
 				}
 			}); p != nil {
 				viol = &h.Viol{Sig: "scan-panic", Msg: fmt.Sprintf("two iterators (%s | %s) schedule %v panicked: %v", briefQ(a), briefQ(bb), sched, p)}
@@ -412,6 +418,7 @@ func refusalC04(w *h.Worker, b *h.Built, st *trie.SlimTrie) *h.Viol {
 				}
 			})
 			w.Trans++
+			w.Tick()
 			if len(b.Keys) == 0 {
 				// nothing un-indexed can be yielded from an empty trie: panic or empty scan
 				if yielded > 0 {
